@@ -26,10 +26,18 @@ variable {o : Opts} {st : St}
 
 theorem under_dest (o : Opts) : Under o o.dest := List.prefix_refl _
 
-theorem under_join {targ n : Str} (h : Under o targ) (hn : PlainName n) : Under o (joinName targ n) := by
+theorem under_join {targ n : Str} (h : Under o targ) (hn : SafeName n) : Under o (joinName targ n) := by
   unfold Under at *
-  rw [lexNorm_joinName _ _ hn]
-  exact List.IsPrefix.trans h (List.prefix_append _ _)
+  rcases lexNorm_joinName_safe o.cwd targ hn with e | e
+  · rw [e]; exact List.IsPrefix.trans h (List.prefix_append _ _)
+  · rw [e]; exact h
+
+/-- every rule but `none` yields names that cannot leave the target -/
+theorem nameOk_safe {rule : NameRule} (hr : rule ≠ .none) {n : Str} (h : nameOk rule n = true) : SafeName n := by
+  cases rule with
+  | none => exact absurd rfl hr
+  | slashDotdot => exact narrowNameOk_safe h
+  | scp => exact (scpNameOk_plain h).safe
 
 theorem good_reply (h : Good o st) (r : Reply) : Good o (st.reply r) := ⟨h.touched, h.stack, h.phase⟩
 
@@ -113,12 +121,13 @@ theorem good_enter (h : Good o st) {targ : Str} (ht : Under o targ) : Good o (en
     · exact h.stack g hg
 
 theorem good_afterData (h : Good o st) (p : Path) {np : Str} (hnp : Under o np) (size : Int) (count : Nat)
-    (pr wr : Str) : Good o (afterData st p np size count pr wr) := by
+    (pr wr : Str) : Good o (afterData o st p np size count pr wr) := by
   unfold afterData
   have hp : ∀ d, ∀ np', phaseNp (Phase.resp np d) = some np' → Under o np' := by
     intro d np' e; simp [phaseNp] at e; exact e ▸ hnp
   simp only
-  split <;> exact ⟨h.touched, h.stack, hp _⟩
+  repeat' split
+  all_goals exact ⟨h.touched, h.stack, hp _⟩
 
 theorem good_handleFile (h : Good o st) {np : Str} (hnp : Under o np) (mode : Nat) (size : Int) :
     Good o (handleFile o st np mode size) := by
@@ -165,7 +174,7 @@ theorem good_setTop (h : Good o st) {f : Frame} {rest : List Frame} (hs : st.sta
   · unfold Under; rw [hg]; exact h.stack f (by simp [hs])
   · exact h.stack x (by simp [hs, hx])
 
-theorem good_handleRecord (hrep : o.repaired = true) (h : Good o st) (line : Str) (ch : UInt8) :
+theorem good_handleRecord (hrep : o.rule ≠ .none) (h : Good o st) (line : Str) (ch : UInt8) :
     Good o (handleRecord o st line ch) := by
   unfold handleRecord
   split
@@ -191,8 +200,8 @@ theorem good_handleRecord (hrep : o.repaired = true) (h : Good o st) (line : Str
         have hnp : Under o (if f.targisdir then joinName f.targ name else f.targ) := by
           split
           · apply under_join hf
-            apply scpNameOk_plain
-            simpa [nameOk, hrep] using hn
+            apply nameOk_safe hrep
+            simpa using hn
           · exact hf
         simp only
         split
@@ -204,7 +213,7 @@ end PdshVerif.Pcp
 namespace PdshVerif.Pcp
 variable {o : Opts} {st : St}
 
-theorem good_afterResponse (h : Good o st) {np : Str} (hnp : Under o np) (d : Bool) :
+theorem good_afterResponse (h : Good o st) {np : Str} (hnp : Under o np) (d : Wrerr) :
     Good o (afterResponse o st np d) := by
   unfold afterResponse
   split
@@ -217,14 +226,15 @@ theorem good_afterResponse (h : Good o st) {np : Str} (hnp : Under o np) (d : Bo
       · exact good_start (good_reply hg _)
       · exact good_start hg
     · split
-      · exact good_start h
       · exact good_start (good_reply h _)
+      · exact good_start (good_reply h _)
+      · exact good_start h
 
 theorem good_dataEOF (h : Good o st) (p : Path) (wr : Str) : Good o (dataEOF o st p wr) := by
   unfold dataEOF
   exact good_leave ⟨h.touched, h.stack, h.phase⟩
 
-theorem good_step (hrep : o.repaired = true) (h : Good o st) (b : UInt8) : Good o (step o st b) := by
+theorem good_step (hrep : o.rule ≠ .none) (h : Good o st) (b : UInt8) : Good o (step o st b) := by
   unfold step
   split
   · exact h
@@ -268,7 +278,7 @@ theorem good_finish (h : Good o st) : Good o (finish o st) := by
   · exact good_dataEOF h _ _
   · exact good_leave (good_reply h _)
 
-theorem good_foldl (hrep : o.repaired = true) (s : Str) (h : Good o st) : Good o (s.foldl (step o) st) := by
+theorem good_foldl (hrep : o.rule ≠ .none) (s : Str) (h : Good o st) : Good o (s.foldl (step o) st) := by
   induction s generalizing st with
   | nil => exact h
   | cons b bs ih => exact ih (good_step hrep h b)
@@ -276,7 +286,7 @@ theorem good_foldl (hrep : o.repaired = true) (s : Str) (h : Good o st) : Good o
 theorem good_init (o : Opts) (fs : FS) : Good o (St.init fs) :=
   ⟨by simp [St.init], by simp [St.init], by simp [St.init, phaseNp]⟩
 
-theorem good_run (o : Opts) (hrep : o.repaired = true) (fs : FS) (s : Str) : Good o (run o fs s) :=
+theorem good_run (o : Opts) (hrep : o.rule ≠ .none) (fs : FS) (s : Str) : Good o (run o fs s) :=
   good_finish (good_foldl hrep s (good_enter (good_init o fs) (under_dest o)))
 
 end PdshVerif.Pcp
